@@ -239,8 +239,10 @@ class PseudoOperand(Operand):
             )
 
         if self.instruction.mnemonic == "RMB":
+            if self.value.is_negative():
+                raise OperandTypeError("[{}] bytes cannot be reserved".format(self.operand_string))
             return CodePackage(
-                additional=NumericValue(0, size_hint=self.value.int*2),
+                additional=NumericValue(0, size_hint=self.value.int*2) if self.value.int else NoneValue(),
                 size=self.value.int,
                 max_size=self.value.int,
             )
